@@ -256,7 +256,13 @@ def _shadow(node):
 def _step(node, action):
     step, op = action
     now = node.extra + step
-    impl = _clone(node.impl)
+    if getattr(node.ref, 'pickle', False):
+        # the watch travels through pickle between calls (another process, a cache): equal
+        # values, different objects - nothing may depend on identity
+        import pickle
+        impl = pickle.loads(pickle.dumps(node.impl, (len(node.hist) % 4) + 2))
+    else:
+        impl = _clone(node.impl)
     ref = copy.copy(node.ref)
     if getattr(ref, 'shadow', None) not in (None, True):
         ref.shadow = _clone(ref.shadow)
@@ -357,6 +363,12 @@ def _explore(job):
     if mode == 'fresh-clock':
         ref.fresh_clock = True
         timeutils.now = (lambda v: (lambda: v))(origin)
+    if mode == 'utc-override':
+        # an overridden utcnow() (TimeFixture) is installed: the watch still measures on now()
+        import datetime
+        timeutils.set_time_override(datetime.datetime(2020, 1, 1, 12, 0, 0))
+    if mode == 'pickle':
+        ref.pickle = True
     root = seq.Node(timeutils.StopWatch(duration), ref, (), origin)
 
     def on_fail(node, action, problem):
@@ -369,6 +381,8 @@ def _explore(job):
     else:
         n = seq.bfs([root], ACTIONS, _step, _canon, depth, on_fail, counters)
     _install_clock()
+    if mode == 'utc-override':
+        timeutils.clear_time_override()
     return duration, dict(counters), fails[:50], n
 
 
@@ -469,6 +483,7 @@ def run(ctx):
              for o in (0.1, 0.2)]
     # the clock function is replaced between calls
     jobs += [(2, depth - 1, 100, 'fresh-clock'), (None, depth - 2, 0, 'fresh-clock')]
+    jobs += [(2, depth - 2, 100, 'utc-override'), (2, depth - 1, 100, 'pickle'), (None, depth - 2, 0, 'pickle')]
     res = par.pmap(_explore, jobs)
     for duration, counters, fails, nstates in res:
         rep.counters.update({k: v for k, v in counters.items()
@@ -482,9 +497,11 @@ def run(ctx):
             cls = '%s:%s' % (f['problem']['kind'], f['history'][-1][1])
             if f.get('shadow'):
                 cls = 'with-a-second-watch-in-use:' + cls
-            if f.get('mode') in ('fractional', 'fresh-clock'):
+            if f.get('mode') in ('fractional', 'fresh-clock', 'utc-override', 'pickle'):
                 cls = {'fractional': 'fractional-readings:',
-                       'fresh-clock': 'clock-function-replaced-between-calls:'}[f['mode']] + cls
+                       'fresh-clock': 'clock-function-replaced-between-calls:',
+                       'utc-override': 'with-utcnow-override-installed:',
+                       'pickle': 'watch-pickled-between-calls:'}[f['mode']] + cls
             rep.fail(cls, dict(f['problem'], clock_origin=f.get('origin', 100)),
                      {'duration': duration, 'history': f['history'],
                       'origin': f.get('origin', 100), 'shadow': f.get('shadow', False),
@@ -548,6 +565,11 @@ def replay(payload):
     if payload.get('mode') == 'fresh-clock':
         ref.fresh_clock = True
         timeutils.now = (lambda v: (lambda: v))(origin)
+    if payload.get('mode') == 'utc-override':
+        import datetime
+        timeutils.set_time_override(datetime.datetime(2020, 1, 1, 12, 0, 0))
+    if payload.get('mode') == 'pickle':
+        ref.pickle = True
     node = seq.Node(timeutils.StopWatch(payload['duration']), ref, (), origin)
     trace = []
     for step, op in payload['history']:
@@ -556,6 +578,8 @@ def replay(payload):
                       'impl_state': _impl_proj(node.impl), 'problem': problem})
         if problem is not None:
             _install_clock()
+            timeutils.clear_time_override()
             return {'violates': True, 'trace': trace}
     _install_clock()
+    timeutils.clear_time_override()
     return {'violates': False, 'trace': trace}
